@@ -154,6 +154,10 @@ var corpus = [][]string{
 var sharedEntities = map[string][]byte{"amp": []byte("&"), "lt": []byte("<"), "gt": []byte(">"), "quot": []byte("\""), "apos": []byte("'"), "varphi": []byte("phi"), "nbsp": []byte("\u00a0")}
 var sharedEntitiesXML = map[string][]byte{"amp": []byte("&"), "lt": []byte("<"), "gt": []byte(">"), "quot": []byte("\""), "apos": []byte("'")}
 var sharedEntitiesLong = map[string][]byte{"amp": []byte("&"), "hellip": []byte("\u2026"), "middot": []byte("\u00b7"), "DiacriticalAcute": []byte("\u00b4"), "CounterClockwiseContourIntegral": []byte("\u2233"), "varphi": []byte("phi")}
+
+// as many entries as the XML table, other (longer) names: what a memo keyed by a cheap fingerprint of
+// the table (its size) would confuse with it
+var sharedEntitiesFive = map[string][]byte{"amp": []byte("&"), "hellip": []byte("\u2026"), "middot": []byte("\u00b7"), "CounterClockwiseContourIntegral": []byte("\u2233"), "varphi": []byte("phi")}
 var sharedRevEntities = map[byte][]byte{'\'': []byte("&#39;"), '"': []byte("&#34;")}
 
 type tr struct {
@@ -558,11 +562,11 @@ func runWorkloadIn(in wlInput, scratch []byte, rec *memRec) (out []byte) {
 		}
 		t.add("ents", parse.ReplaceEntities(cp(), ents, rev))
 		// the same fixed text through every table, in an order that depends on the task
-		tables := []map[string][]byte{sharedEntitiesXML, sharedEntitiesLong, sharedEntities}
-		for k := 0; k < 3; k++ {
+		tables := []map[string][]byte{sharedEntitiesXML, sharedEntitiesLong, sharedEntities, sharedEntitiesFive}
+		for k := 0; k < 4; k++ {
 			call()
-			tb := tables[(k+in.opt)%3]
-			t.add("ents-fixed", (k+in.opt)%3, parse.ReplaceEntities([]byte("x &amp; &hellip; &CounterClockwiseContourIntegral; &middot; &varphi; &#39; y"), tb, rev))
+			tb := tables[(k+in.opt)%4]
+			t.add("ents-fixed", (k+in.opt)%4, parse.ReplaceEntities([]byte("x &amp; &hellip; &CounterClockwiseContourIntegral; &middot; &varphi; &#39; y"), tb, rev))
 		}
 		call()
 		t.add("wsents", parse.ReplaceMultipleWhitespaceAndEntities(cp(), ents, rev))
@@ -691,7 +695,14 @@ func runWorkloadIn(in wlInput, scratch []byte, rec *memRec) (out []byte) {
 		var z *buffer.StreamLexer
 		every := 2 + in.opt%5
 		limit := 400
-		if in.opt&16 != 0 {
+		if in.opt&16 != 0 && in.opt&4 != 0 {
+			// default constructor and default-sized blocks throughout: ordinary tokens, a stream of
+			// several default buffers (what a shared stock of standard-size blocks would need)
+			d = bytes.Repeat(append(d, ' '), 3*4096/(len(d)+1)+2+in.opt%7)
+			z = buffer.NewStreamLexer(&yieldReader{data: d, chunk: []int{4096, 1000, 333, 4000}[in.opt>>5&1|in.opt&2]})
+			every = 700 + 100*(in.opt%9)
+			limit = 40000
+		} else if in.opt&16 != 0 {
 			// default constructor, reader delivering big chunks, one token longer than the
 			// default buffer (forces the lexer to grow it), then ordinary tokens
 			long := bytes.ReplaceAll(d, []byte(" "), []byte("_"))
